@@ -146,6 +146,11 @@ func (s *scopedWalker) walkFn(path string, d fs.DirEntry, err error) error {
 	// st.logger.Printf("flags for %q: %v", name, flags)
 
 	if s.excl.matches(name) {
+		if !info.Mode().IsDir() {
+			// Returning SkipDir for a non-directory makes fs.WalkDir skip
+			// the remaining entries of the containing directory.
+			return nil
+		}
 		return filepath.SkipDir
 	}
 
